@@ -171,9 +171,159 @@ def _connection_state_tables(out):
         n.name for n in base[0].body if isinstance(n, ast.FunctionDef) and n.name.startswith('__') and n.name != '__init__')))
 
 
+def _env_key(node, names):
+    """'ENV_%s' % k | 'ENV_' + k | f'ENV_{k}' | 'ENV_{}'.format(k)  ->  (prefix, variable) or None"""
+    if isinstance(node, ast.BinOp) and isinstance(node.op, ast.Mod) and isinstance(node.left, ast.Constant) \
+            and isinstance(node.left.value, str) and node.left.value.endswith('%s') and node.left.value.count('%') == 1:
+        r = node.right
+        if isinstance(r, ast.Tuple) and len(r.elts) == 1:
+            r = r.elts[0]
+        if isinstance(r, ast.Name) and r.id in names:
+            return node.left.value[:-2], r.id
+    if isinstance(node, ast.BinOp) and isinstance(node.op, ast.Add) and isinstance(node.left, ast.Constant) \
+            and isinstance(node.left.value, str) and isinstance(node.right, ast.Name) and node.right.id in names:
+        return node.left.value, node.right.id
+    if isinstance(node, ast.JoinedStr) and len(node.values) == 2 and isinstance(node.values[0], ast.Constant) \
+            and isinstance(node.values[1], ast.FormattedValue) and isinstance(node.values[1].value, ast.Name) \
+            and node.values[1].value.id in names and node.values[1].conversion == -1 and node.values[1].format_spec is None:
+        return node.values[0].value, node.values[1].value.id
+    if isinstance(node, ast.Call) and isinstance(node.func, ast.Attribute) and node.func.attr == 'format' \
+            and isinstance(node.func.value, ast.Constant) and isinstance(node.func.value.value, str) \
+            and node.func.value.value.endswith('{}') and node.func.value.value.count('{') == 1 \
+            and len(node.args) == 1 and not node.keywords and isinstance(node.args[0], ast.Name) and node.args[0].id in names:
+        return node.func.value.value[:-2], node.args[0].id
+    return None
+
+
+def _env_fill_loops(stmts):
+    """top-level `for K, V in <src>.items(): <dict>[<'ENV_%s' % K>] = V` statements of a statement list
+    -> [(index, source text, dictionary text, key prefix)]"""
+    res = []
+    for i, st in enumerate(stmts):
+        if not isinstance(st, ast.For) or st.orelse:
+            continue
+        it = st.iter
+        if not (isinstance(it, ast.Call) and isinstance(it.func, ast.Attribute) and it.func.attr == 'items' and not it.args
+                and isinstance(st.target, ast.Tuple) and len(st.target.elts) == 2 and all(isinstance(e, ast.Name) for e in st.target.elts)):
+            continue
+        k, v = st.target.elts[0].id, st.target.elts[1].id
+        body = [b for b in st.body if not isinstance(b, ast.Pass)]
+        if len(body) != 1 or not isinstance(body[0], ast.Assign) or len(body[0].targets) != 1 \
+                or not isinstance(body[0].targets[0], ast.Subscript):
+            continue
+        tg = body[0].targets[0]
+        key = _env_key(tg.slice, {k})
+        if key is None or not (isinstance(body[0].value, ast.Name) and body[0].value.id == v):
+            continue
+        res.append((i, ast.unparse(it.func.value), ast.unparse(tg.value), key[0]))
+    return res
+
+
+def _config_file_tables(out):
+    """How a server section's username/password (written literally or as %(ENV_X)s) become the credentials the
+    server is built with: ServerOptions.read_config / server_configs_from_parser / _parse_username_and_password,
+    UnhosedConfigParser.saneget, Options.__init__.  Helpers of sites/config.py (which extracts other facts about
+    the same read_config) are reused by import."""
+    from sites.config import OPT, _find as cfg_find, _tree as cfg_tree
+    t = cfg_tree(OPT)
+    rc = cfg_find(t, 'ServerOptions.read_config')
+    body = rc.body
+    out.append('-- ServerOptions.read_config: which dictionary the parser expands %(ENV_X)s from, where the [supervisord]')
+    out.append('-- environment= is merged into it, and where the [inet_http_server]/[unix_http_server] sections are parsed')
+    # -- parser.expansions = <src>
+    binds = [(i, st) for i, st in enumerate(body) if isinstance(st, ast.Assign) and len(st.targets) == 1
+             and ast.unparse(st.targets[0]) == 'parser.expansions']
+    nested_binds = [n for n in ast.walk(rc) if isinstance(n, (ast.Assign, ast.AugAssign, ast.AnnAssign))
+                    and any(ast.unparse(tg) == 'parser.expansions' for tg in (n.targets if isinstance(n, ast.Assign) else [n.target]))]
+    bind_src = ast.unparse(binds[0][1].value) if binds else ''
+    out.append('def rc_parser_expansions_src : String := %s' % lean_str(bind_src))
+    # -- the merge loop
+    merges = [m for m in _env_fill_loops(body) if m[1] == 'section.environment']
+    out.append('def rc_env_merges : List (String × String × String) := [%s]'
+               % ', '.join('(%s, %s, %s)' % (lean_str(s), lean_str(d), lean_str(p)) for _, s, d, p in merges))
+    # -- the call that parses the server sections
+    calls = [n for n in ast.walk(rc) if isinstance(n, ast.Call) and ast.unparse(n.func) == 'self.server_configs_from_parser']
+    top = [(i, st) for i, st in enumerate(body) if isinstance(st, ast.Assign) and len(st.targets) == 1
+           and ast.unparse(st.targets[0]) == 'section.server_configs' and isinstance(st.value, ast.Call)
+           and ast.unparse(st.value.func) == 'self.server_configs_from_parser']
+    call_args = [ast.unparse(a) for a in top[0][1].value.args] if top else []
+    out.append('def rc_server_parse_calls : Nat := %d' % len(calls))
+    out.append('def rc_server_parse_args : List String := %s' % _lean_strs(call_args))
+    # -- the order
+    after = bool(len(merges) == 1 and len(top) == 1 and len(calls) == 1 and merges[0][0] < top[0][0])
+    out.append('/-- `section.server_configs = self.server_configs_from_parser(parser)` is a statement of read_config\'s own body that')
+    out.append('    comes after the loop merging the [supervisord] environment= into the ENV_ expansions -/')
+    out.append('def rc_servers_parsed_after_env_merge : Bool := %s' % ('true' if after else 'false'))
+    # -- is the dictionary the parser expands from the very dictionary the merge loop fills (not a copy)?
+    shares = bool(len(binds) == 1 and len(nested_binds) == 1 and len(merges) == 1 and bind_src == merges[0][2]
+                  and len(top) == 1 and binds[0][0] < top[0][0] and call_args == ['parser'])
+    out.append('/-- `parser.expansions` is bound once, before that call, to the dictionary the merge loop fills (an alias, not a copy) -/')
+    out.append('def rc_parser_shares_expansions : Bool := %s' % ('true' if shares else 'false'))
+    # -- anything else in read_config that rebinds, empties or removes from either dictionary
+    others = []
+    dicts = {'parser.expansions', bind_src or 'self.environ_expansions', 'self.environ_expansions'}
+    merge_nodes = set()
+    for i, _, _, _ in merges:
+        merge_nodes.update(id(n) for n in ast.walk(body[i]))
+    for n in ast.walk(rc):
+        if id(n) in merge_nodes or (binds and n is binds[0][1]):
+            continue
+        if isinstance(n, (ast.Assign, ast.AugAssign, ast.AnnAssign, ast.Delete)):
+            tgs = n.targets if isinstance(n, (ast.Assign, ast.Delete)) else [n.target]
+            for tg in tgs:
+                base = tg.value if isinstance(tg, ast.Subscript) else tg
+                if ast.unparse(base) in dicts:
+                    others.append((n.lineno, ast.unparse(n)))
+        if isinstance(n, ast.Call) and isinstance(n.func, ast.Attribute) and n.func.attr in _MUTATORS \
+                and ast.unparse(n.func.value) in dicts:
+            others.append((n.lineno, ast.unparse(n)))
+    out.append('def rc_other_expansion_writes : List String := %s' % _lean_strs([s for _, s in sorted(set(others))]))
+    # -- Options.__init__: the ENV_ expansions start as a snapshot of os.environ
+    init = cfg_find(t, 'Options.__init__')
+    fresh = [i for i, st in enumerate(init.body) if isinstance(st, ast.Assign) and len(st.targets) == 1
+             and ast.unparse(st.targets[0]) == 'self.environ_expansions' and ast.unparse(st.value) in ('{}', 'dict()')]
+    fills = [m for m in _env_fill_loops(init.body) if m[1] == 'os.environ' and m[2] == 'self.environ_expansions']
+    out.append('def init_env_prefix : String := %s' % lean_str(fills[0][3] if fills else ''))
+    out.append('def init_snapshots_os_environ : Bool := %s'
+               % ('true' if len(fresh) == 1 and len(fills) == 1 and fresh[0] < fills[0][0] else 'false'))
+    so_init = cfg_find(t, 'ServerOptions.__init__')
+    so_touch = [ast.unparse(n) for n in ast.walk(so_init) if isinstance(n, ast.Attribute) and n.attr == 'environ_expansions']
+    out.append('def server_init_touches_expansions : Bool := %s' % ('true' if so_touch else 'false'))
+    # -- _parse_username_and_password: both options through parser.saneget with the default expansion
+    up = cfg_find(t, 'ServerOptions._parse_username_and_password')
+    aliases = {ast.unparse(st.targets[0]) for st in ast.walk(up) if isinstance(st, ast.Assign) and len(st.targets) == 1
+               and ast.unparse(st.value) == 'parser.saneget'} | {'parser.saneget'}
+    srcs = []
+    for nm in ('username', 'password'):
+        asg = [st for st in ast.walk(up) if isinstance(st, ast.Assign) and len(st.targets) == 1 and ast.unparse(st.targets[0]) == nm]
+        ok = (len(asg) == 1 and isinstance(asg[0].value, ast.Call) and ast.unparse(asg[0].value.func) in aliases
+              and [ast.unparse(a) for a in asg[0].value.args] == ['section', repr(nm), 'None'] and not asg[0].value.keywords)
+        srcs.append((nm, ok))
+    rets = [n for n in ast.walk(up) if isinstance(n, ast.Return)]
+    ret_ok = len(rets) == 1 and ast.unparse(rets[0].value).replace(' ', '') == "{'username':username,'password':password}"
+    out.append('/-- username and password are `parser.saneget(section, <option>, None)` (expanded, no expansions of their own), returned unchanged -/')
+    out.append('def cred_options_expanded_by_parser : Bool := %s' % ('true' if all(ok for _, ok in srcs) and ret_ok else 'false'))
+    scp = cfg_find(t, 'ServerOptions.server_configs_from_parser')
+    upd = [n for n in ast.walk(scp) if isinstance(n, ast.Call) and ast.unparse(n.func) == 'config.update' and len(n.args) == 1
+           and ast.unparse(n.args[0]) == 'self._parse_username_and_password(parser, section)']
+    sets = [ast.unparse(n) for n in ast.walk(scp) if isinstance(n, ast.Assign)
+            and any(isinstance(tg, ast.Subscript) and ast.unparse(tg.value) == 'config' and isinstance(tg.slice, ast.Constant)
+                    and tg.slice.value in ('username', 'password') for tg in n.targets)]
+    out.append('def server_sections_take_parsed_credentials : Bool := %s' % ('true' if len(upd) == 2 and not sets else 'false'))
+    # -- UnhosedConfigParser.saneget: expand(optval, self.expansions + the caller's)
+    sg = cfg_find(t, 'UnhosedConfigParser.saneget')
+    src = ast.unparse(sg).replace(' ', '')
+    comb = [st for st in ast.walk(sg) if isinstance(st, ast.Assign) and len(st.targets) == 1 and isinstance(st.targets[0], ast.Name)
+            and 'self.expansions' in ast.unparse(st.value)]
+    ex = [n for n in ast.walk(sg) if isinstance(n, ast.Call) and ast.unparse(n.func) == 'expand' and len(n.args) >= 2
+          and comb and ast.unparse(n.args[0]) == 'optval' and ast.unparse(n.args[1]) == comb[0].targets[0].id]
+    out.append('def saneget_expands_from_parser_expansions : Bool := %s' % ('true' if len(comb) == 1 and len(ex) == 1 else 'false'))
+
+
 def TABLES():
     out = []
     _connection_state_tables(out)
+    _config_file_tables(out)
     # ---- the Authorization regexp ------------------------------------------------------------
     t = _tree('supervisor/medusa/auth_handler.py')
     pat = flags = None
